@@ -11,6 +11,7 @@ from .lie_common import (lib_call, euler_ok, algebra_corpus, run_contract_slice,
                          algebra_switch_points, so3_of, parts_of)
 
 SHARDS = {"quick": 14, "thorough": 16}
+REQUIRED_REACH = ['SO3QuatLieGroup.exp', 'SO3MrpLieGroup.exp', 'SO3DcmLieGroup.exp', 'SO3EulerLieGroup.exp', 'SE2LieGroup.exp', 'SE3LieGroup.exp', 'SE23LieGroup.exp', 'LieGroupDirectProduct.exp']
 RULE = ("per algebra/group pair: algebra vectors = corpus (0, denormals, both sides of 1e-3/0.0316/0.0632, pi, >pi) + "
         "random rays (angle 0..2pi-0.05 with tiny/near-limit mix, translations log-uniform 1e-6..1e3) + points obtained by "
         "bisecting every comparison node of the exp expression to adjacent doubles; reference scipy.linalg.expm of the "
